@@ -761,7 +761,28 @@ pub fn run(a: &Args) -> i32 {
         }
         tot.max("max_segments", input.segments as u64);
         for v in 0..variants {
-            let cfg = gen_cfg(s_r, v);
+            let mut cfg = gen_cfg(s_r, v);
+            // the sweep-based operations can run away on some (invalid / degenerate) inputs: a
+            // same-operation prefix on ANOTHER input is screened in the pristine child like the
+            // scenario itself, and dropped from the history if it does not finish there
+            if let (Some(p), true) = (&pristine, matches!(sc.op.as_str(), "sweep_intersections" | "sweep_intersections_refs" | "interior_point" | "monotone_subdivision")) {
+                let before = cfg.prefix.len();
+                cfg.prefix.retain(|name| match name.strip_prefix("@self:") {
+                    None => true,
+                    Some(rest) => {
+                        let Some((size, seed)) = rest.split_once(':') else { return false };
+                        let size: usize = match size.parse::<usize>().unwrap_or(1) {
+                            0 => sc.input.size.max(1),
+                            s => s.min(sc.input.size.max(1)),
+                        };
+                        let psc = Scenario { op: sc.op.clone(), input: InputSpec { family: sc.input.family.clone(), size, seed: seed.parse().unwrap_or(0) }, knobs: sc.knobs.clone() };
+                        p.ask(&serde_json::to_vec(&psc).unwrap(), 2).is_some()
+                    }
+                });
+                if cfg.prefix.len() != before {
+                    tot.add("hazardous_prefix_dropped", (before - cfg.prefix.len()) as u64);
+                }
+            }
             let pin = prefix_inputs_for(&sc, &cfg);
             let (got, info) = run_one(&sc, op, &input, &pin, &cfg);
             evaluations += 1;
